@@ -72,10 +72,11 @@ pub struct MemoryAllocation { _p: u8 }
 impl MemoryAllocation {
     pub uninterp spec fn start(&self) -> nat;
     pub uninterp spec fn size(&self) -> nat;
+    pub uninterp spec fn al(&self) -> nat;
     /// memory.rs:35
     #[verifier::external_body]
     pub fn new(layout: Layout) -> (r: MemoryAllocation)
-        ensures r.size() == layout.sz(), layout.al() > 0 ==> r.start() % layout.al() == 0,
+        ensures r.size() == layout.sz(), r.al() == layout.al(), r.al() > 0 ==> r.start() % r.al() == 0,
             r.start() + r.size() <= usize::MAX,
     { unimplemented!() }
     /// memory.rs:55
@@ -83,6 +84,7 @@ impl MemoryAllocation {
     pub fn memory(&mut self) -> (m: Memory<'_>)
         ensures m.start() == old(self).start(), m.end() == old(self).start() + old(self).size(),
             final(self).start() == old(self).start(), final(self).size() == old(self).size(),
+            final(self).al() == old(self).al(),
     { unimplemented!() }
 }
 
